@@ -288,14 +288,15 @@ Proof.
     rewrite <- Er. exact Ar.
 Qed.
 
-(* h_detach consumes [h]: in place iff uniquely owned, otherwise a normalised copy *)
+(* h_detach consumes [h]: in place iff uniquely owned AND starting at bit 0, otherwise a
+   normalised copy (rebased to bit 0) *)
 Lemma h_detach_spec st h L st' h' :
   store_inv st (h :: L) -> h_detach st h = (st', h') ->
   store_inv st' (h' :: L) /\ (forall g, In g L -> view st' g = view st g) /\
   habs st' h' = habs st h /\ strong (sget st' (hptr h')) = 1.
 Proof.
   intros HI E. unfold h_detach in E.
-  destruct (strong (sget st (hptr h)) =? 1) eqn:Eu.
+  destruct ((strong (sget st (hptr h)) =? 1) && (hstart h =? 0)) eqn:Eu.
   - injection E as <- <-. split; [exact HI|]. split; [reflexivity|]. split; [reflexivity|lia].
   - pose proof (store_inv_wf _ _ h HI (or_introl eq_refl)) as [Hp Hw].
     destruct (detach_spec false (view st h) Hw) as [Wc Ac].
@@ -307,6 +308,15 @@ Proof.
     + intros g Hg. rewrite (V g Hg). apply view_decr.
     + unfold habs. rewrite N, cbs_eta. exact Ac.
     + cbn [hptr]. rewrite sget_app_new. reflexivity.
+Qed.
+
+(* whatever the strong count: the detached handle starts at bit 0 *)
+Lemma h_detach_hstart st h st' h' : h_detach st h = (st', h') -> hstart h' = 0.
+Proof.
+  unfold h_detach. destruct ((strong (sget st (hptr h)) =? 1) && (hstart h =? 0)) eqn:Eu.
+  - intros E. injection E as <- <-. lia.
+  - unfold alloc. intros E. injection E as <- <-. cbn [hstart]. unfold detach. cbn [andb].
+    destruct (clen (view st h) =? 0); reflexivity.
 Qed.
 
 (* h_make_mut consumes [h]: afterwards the buffer is uniquely owned; same range, same bytes *)
@@ -385,7 +395,9 @@ Proof.
   pose proof (store_inv_wf _ _ h2 I2 (or_introl eq_refl)) as [Hp2 Hw2].
   destruct (invert_spec true (view st2 h2) Hw2) as [Wc Ac].
   cbv zeta in E. rewrite U2 in E. injection E as <- <-.
-  unfold invert, detach in Wc, Ac. cbv zeta in Wc, Ac.
+  assert (D : detach true (view st2 h2) = view st2 h2).
+  { unfold detach. rewrite N2. cbn [view cstart]. rewrite (h_detach_hstart _ _ _ _ E1). reflexivity. }
+  unfold invert in Wc, Ac. cbv zeta in Wc, Ac. rewrite D in Wc, Ac.
   destruct (inv_rewrite st2 h2 L _ _ _ false I2 U2 Wc) as (I & V & N).
   assert (Eh : mkh (hptr h2) (cstart (view st2 h2)) (cend (view st2 h2)) = h2)
     by (destruct h2; reflexivity).
@@ -815,14 +827,15 @@ Proof.
 Qed.
 
 Theorem h_detach_in_place : forall st h,
-  strong (sget st (hptr h)) = 1 -> h_detach st h = (st, h).
-Proof. intros st h H. unfold h_detach. rewrite H. reflexivity. Qed.
+  strong (sget st (hptr h)) = 1 -> hstart h = 0 -> h_detach st h = (st, h).
+Proof. intros st h H H0. unfold h_detach. rewrite H, H0. reflexivity. Qed.
 
 Theorem h_detach_copies : forall st h,
-  strong (sget st (hptr h)) <> 1 ->
+  strong (sget st (hptr h)) <> 1 \/ hstart h <> 0 ->
   hptr (snd (h_detach st h)) = length st /\ length (fst (h_detach st h)) = S (length st).
 Proof.
-  intros st h H. unfold h_detach. replace (strong (sget st (hptr h)) =? 1) with false by lia.
+  intros st h H. unfold h_detach.
+  replace ((strong (sget st (hptr h)) =? 1) && (hstart h =? 0)) with false by lia.
   unfold alloc. cbn [fst snd hptr]. rewrite decr_length. split; [reflexivity|].
   rewrite app_length, decr_length. cbn [length]. lia.
 Qed.
